@@ -14,10 +14,12 @@ import (
 )
 
 func (api *API) encode(ctx context.Context, value reflect.Value, ts TypeSettings, opts *options) (b []byte, err error) {
-	if opts.encodeDepth++; opts.encodeDepth > maxEncodeDepth {
-		return nil, ierrors.Errorf("exceeded the maximum nesting depth of %d", maxEncodeDepth)
+	if countsAsNestingLevel(value.Type()) {
+		if opts.encodeDepth++; opts.encodeDepth > maxDecodeDepth {
+			return nil, ierrors.Errorf("exceeded the maximum nesting depth of %d", maxDecodeDepth)
+		}
+		defer func() { opts.encodeDepth-- }()
 	}
-	defer func() { opts.encodeDepth-- }()
 
 	valueI := value.Interface()
 	valueType := value.Type()
